@@ -396,6 +396,32 @@ impl ObjState for [Link] {
                     idx
                 ))
             }
+            // Every link index must refer to a link inside the network
+            let mut is_idx_out_of_range = false;
+            for (link_idx, name) in [
+                (link.idx_flip, "flip"),
+                (link.idx_next, "next"),
+                (link.idx_next_alt, "next alt"),
+                (link.idx_prev, "prev"),
+                (link.idx_prev_alt, "prev alt"),
+            ]
+            .into_iter()
+            .chain(link.link_idxs_lockout.iter().map(|x| (*x, "lockout")))
+            {
+                if link_idx.idx() >= self.len() {
+                    errors.push(anyhow!(
+                        "Link {} has link index {} = {} outside of the network (link count = {})!",
+                        link.idx_curr,
+                        name,
+                        link_idx,
+                        self.len()
+                    ));
+                    is_idx_out_of_range = true;
+                }
+            }
+            if is_idx_out_of_range {
+                continue;
+            }
             if link.idx_flip == link.idx_curr {
                 errors.push(anyhow!(
                     "Normal {} and flipped {} links must be different!",
